@@ -11,7 +11,8 @@ case = dict(A, P, N, wtt_us, stop_us, ends, horizon_us, ack_type, msgs=[dict(at,
        sc["late"], sc["shared_default"], m["task"]: tasks registered late / through the shared broker / on another broker
             (recv_props.decorate_reg); sc["live"]: the real run_receiver_task coroutine runs for the whole scenario over a
             listen() that fails at scripted points (recv_props.gen_live) - raw log: SESSION s (Receiver.listen called), LISTEN s, TAKE i s,
-            FAULT s exc, no LTS trace
+            FAULT s exc, no LTS trace; sc["live"]["supervisor"]: instead of run_receiver_task a supervisor of the driver runs ONE
+            Receiver object over several listen() sessions (recv_props.gen_relisten) - raw log also LISTEN.FAILED s exc, RESUME n
 observation = dict(raw=[[t_us, tag, a, b], ...], lts=[Coq event literals], cut, returned, wire={i: printable bytes})"""
 import asyncio
 import base64
@@ -91,6 +92,19 @@ def run_case(sc, opts):
         log = shims.Log(loop)
         box["log"] = log
         shims.install(rmod, log, ident)
+        if sc.get("app_task_factory"):
+            # the application's loop has a task factory of its own (not an eager one) before the worker starts
+            class AppTask(asyncio.Task):
+                pass
+
+            made = box["app_tasks"] = []
+
+            def app_factory(lp, coro, **kw):
+                t = (AppTask if sc["app_task_factory"] == "task-subclass" else asyncio.Task)(coro, loop=lp, **kw)
+                made.append(1)
+                return t
+
+            loop.set_task_factory(app_factory)
 
         class B(AsyncBroker):
             async def kick(self, m):
@@ -124,7 +138,7 @@ def run_case(sc, opts):
                 L = box["msgs"]
                 while True:
                     k = lv["cur"]
-                    fl = next((x for x in lv["faults"] if not x["done"] and x["k"] <= k), None)
+                    fl = next((x for x in lv["faults"] if not x["done"] and x["k"] <= k and not x.get("busy")), None)
                     if fl is not None:
                         if fl.get("at_us") is not None:
                             d = fl["at_us"] / 1e6 - loop.time()
@@ -144,6 +158,15 @@ def run_case(sc, opts):
                     d = m["at"] / 1e6 - loop.time()
                     if d > 0:
                         await asyncio.sleep(d)
+                    # a fault scripted for the moment at which EVERY SLOT IS BUSY (`busy`): the connection drops instead of
+                    # delivering message k (or a later one, before message `until`) if, at its arrival, max_async_tasks callbacks
+                    # are inside bodies that end strictly later, the runner waits for a slot and the prefetcher waits for this
+                    # very fetch - otherwise the message is delivered and the fault stays scripted
+                    bf = next((x for x in lv["faults"] if not x["done"] and x.get("busy") and x["k"] <= k < x.get("until", len(L))), None)
+                    if bf is not None and all_slots_busy():
+                        bf["done"] = True
+                        log.add("FAULT", s, bf["exc"])
+                        raise cli_glue.listen_fault(bf["exc"])
                     lv["cur"] = k + 1
                     lv["unstarted"].add(m["i"])
                     log.add("TAKE", m["i"], s)
@@ -153,16 +176,51 @@ def run_case(sc, opts):
                     return
                 await asyncio.Event().wait()
 
+        # where the worker stands, read off the shims' own entries (only to place scripted faults, see all_slots_busy)
+        st = dict(alive=set(), body={}, rn=None, pf=None)
+
+        def all_slots_busy():
+            A_ = sc["A"]
+            if not A_ or A_ <= 0 or len(st["alive"]) < A_ or st["rn"] != "acquiring" or st["pf"] != "polling":
+                return False
+            now = loop.time_us()
+            for i in st["alive"]:
+                m = sc["msgs"][i]
+                t_in = st["body"].get(i)
+                if t_in is None or m.get("style") != "async":
+                    return False
+                d = m["dur"]
+                if m.get("tlabel_us") is not None and 0 <= m["tlabel_us"] < d:
+                    d = m["tlabel_us"]
+                if d >= 0 and t_in + d <= now:
+                    return False
+            return True
+
         if live is not None:
             plain_add0 = log.add
 
             def add0(tag, a=None, b=None):
                 plain_add0(tag, a, b)
                 if tag == "cb.start":
+                    st["alive"].add(a)
                     lv["unstarted"].discard(a)
                     w = lv["waiter"]
                     if not lv["unstarted"] and w is not None and not w.done():
                         w.set_result(None)
+                elif tag == "cb.done":
+                    st["alive"].discard(a)
+                elif tag == "body.in":
+                    st["body"][a] = loop.time_us()
+                elif tag == "SESSION":
+                    st["rn"], st["pf"] = "acquiring", None
+                elif tag == "spawn":
+                    st["rn"] = "acquiring"
+                elif tag == "sem.acq" and a == "rn":
+                    st["rn"] = "holding"
+                elif tag == "semp.acq" and a == "pf":
+                    st["pf"] = "polling"
+                elif (tag == "semp.rel" and a == "pf") or (tag == "q.put" and b == "pf"):
+                    st["pf"] = "idle"
 
             log.add = add0
 
@@ -798,7 +856,45 @@ def run_case(sc, opts):
             akw = dict(live.get("kw") or {})
             if akw.get("ack_time") is not None:
                 akw["ack_time"] = AcknowledgeType(akw["ack_time"])
-            worker = asyncio.ensure_future(run_receiver_task(br, receiver_cls=LiveReceiver, **akw))
+            sv = live.get("supervisor")
+            if sv:
+                # ONE Receiver object over several listen() sessions (recv_props.gen_relisten): the application supervises
+                # listen() itself - it listens again with the SAME receiver after listen() raised (the broker's stream failed)
+                # and, in mode "stop", after listen() returned from a graceful stop whose wait_tasks_timeout had expired
+                # (callbacks of the earlier session are still in flight either way)
+                one = LiveReceiver(br, max_async_tasks=A, max_prefetch=sc["P"], run_startup=False,
+                                   ack_type=AcknowledgeType(sc["ack_type"]) if sc.get("ack_type") else None)
+
+                async def supervise():
+                    resumed = 0
+                    ev_ = asyncio.Event()
+                    while True:
+                        try:
+                            await one.listen(ev_)
+                        except asyncio.CancelledError:
+                            raise
+                        except Exception as exc:         # (an ExceptionGroup of the stream's error: anyio's task group)
+                            log.add("LISTEN.FAILED", lv["sessions"] - 1, type(exc).__name__)
+                            if sv.get("backoff_us"):
+                                await asyncio.sleep(sv["backoff_us"] / 1e6)
+                            if sv.get("event") == "fresh":
+                                ev_ = asyncio.Event()
+                            continue
+                        if resumed >= sv.get("relistens", 0):
+                            return
+                        resumed += 1
+                        if sv.get("pause_us"):
+                            await asyncio.sleep(sv["pause_us"] / 1e6)
+                        lv["stopped"] = False            # the application resumes the worker
+                        if sv.get("event") == "cleared":
+                            ev_.clear()
+                        else:
+                            ev_ = asyncio.Event()
+                        log.add("RESUME", resumed)
+
+                worker = asyncio.ensure_future(supervise())
+            else:
+                worker = asyncio.ensure_future(run_receiver_task(br, receiver_cls=LiveReceiver, **akw))
             # registrations "after the Receiver exists": the worker's first step builds the receiver and starts listening; this
             # callback is queued behind that step and ahead of the first step of the prefetcher it starts
             loop.call_soon(after_construction)
